@@ -58,8 +58,21 @@ def harness_src():
     return d
 
 
+_BUILT = {}
+_BUILD_LOCK = __import__("threading").Lock()
+
+
 def build_harness(race=False, pkg="./drv", out="drv.test"):
-    """(Re)build the harness test binary against the repository's current working tree."""
+    """(Re)build the harness test binary against the repository's current working tree
+    (once per check invocation and flavour)."""
+    with _BUILD_LOCK:
+        key = (race, pkg, out)
+        if key not in _BUILT:
+            _BUILT[key] = _build_harness(race, pkg, out)
+        return _BUILT[key]
+
+
+def _build_harness(race=False, pkg="./drv", out="drv.test"):
     os.makedirs(os.path.join(WORK, "bin"), exist_ok=True)
     src = harness_src()
     # keep go.sum in step with the repository's
